@@ -7,6 +7,7 @@ import Oracle.Util
    bloom probe <*|m> <=|!=> <ci> <t> <o>           → crit=… keys=… orig=… wild=… op=… neg=…
    bloom check <*|m> <=|!=> <ci> <t> <o> M=<l> U=<l>  → (probe answer) rec=<bits|-> pass=<rotated><unrotated>
    bloom mf <and|or> <ci> <phrase> <neg> <star> W=<l> O=<l> P=<b> PO=<b> M=<l> U=<l>  → keys=… orig=… wild=… op=… rec=… pass=…
+   bloom bool <=|!=> <0|1> <none|de> R=<item,…>    → keys=… orig=… wild=… op=… rec=<bits> pass=…   (boolean comparison on column c)
    dict <and|or> <ci> <phrase> W=<l> P=<b> R=<item,…>  → dict=<bits> rec=<bits>
    lists <l>: items separated by `;`, `e` = the empty string, the list `-` = no value at all (column absent) -/
 namespace Oracle.C03B
@@ -70,7 +71,7 @@ def colBloom (vs : Option (List Bytes)) : Option BloomLike :=
 
 def passStr (star : Bool) (m u : Option (List Bytes)) (p : Probe) (neg : Bool) : String :=
   let cols : Cols := if star then [colBloom m, colBloom u] else [colBloom m]
-  bit (passRotated star cols p neg) ++ bit (passUnrotated cols p)
+  bit (passRotated star cols p neg) ++ bit (passUnrotated cols p neg)
 
 def recsOf (m u : Option (List Bytes)) : List (Bool × Bytes) :=
   (m.getD []).map (fun v => (true, v)) ++ (u.getD []).map (fun v => (false, v))
@@ -182,6 +183,24 @@ def dict (args : List String) : String :=
     | _, _, _, _, _ => "bad-op"
   | _ => "bad-op"
 
+def boolCheck (args : List String) : String :=
+  match args with
+  | [o, lit, cmi, r] =>
+    let eq? := if o = "=" then some true else if o = "!=" then some false else none
+    match eq?, bool? lit with
+    | some eq, some lit =>
+      if cmi ≠ "none" ∧ cmi ≠ "de" then "bad-op" else
+      if !r.startsWith "R=" then "bad-op" else
+      match items? (r.drop 2).toString with
+      | some vs =>
+        let cols : Cols := [if cmi = "de" then some (exact (colKeysDict vs)) else none]
+        let p := boolProbe
+        let _ := eq
+        s!"{showProbe p} rec={bits (vs.map (boolRaw eq lit))} pass={bit (passRotated false cols p false)}{bit (passUnrotated cols p false)}"
+      | none => "bad-op"
+    | _, _ => "bad-op"
+  | _ => "bad-op"
+
 def handle (cmd : String) (args : List String) : Option String :=
   match cmd, args with
   | "bloom", "add" :: r => some (add r)
@@ -190,6 +209,7 @@ def handle (cmd : String) (args : List String) : Option String :=
   | "bloom", "probe" :: r => some (probe r)
   | "bloom", "check" :: r => some (check r)
   | "bloom", "mf" :: r => some (mfCheck r)
+  | "bloom", "bool" :: r => some (boolCheck r)
   | "bloom", _ => some "bad-op"
   | "dict", r => some (dict r)
   | _, _ => none
